@@ -282,10 +282,23 @@ def r5(ctx):
     # every peek of the extended length is preceded by a check that those bytes are buffered
     us = [s for s in struct_sites(fs, ctx.folder) if s.kind == "unpack"]
     okp = len(us) == 2
+    why = []
     for u in us:
-        g = [(norm(tt), p) for (tt, p) in fcfg.conditions_of(fcfg.node_of(u.call).id)]
-        okp = okp and ("len(self.buf) < size", False) in g
-    ctx.check(okp, "C18.R5", fs, "the extended length is peeked only when its bytes are buffered", witness=[s.fmt for s in us])
+        un = fcfg.node_of(u.call)
+        g = [(norm(tt), p) for (tt, p) in fcfg.conditions_of(un.id)]
+        branch = [c for c in g if c[1] and (c[0].endswith("== 126") or c[0].endswith("== 127"))]
+        # an availability test that is evaluated *inside* the branch (after the branch's `size += k`) and whose failure leaves
+        good = False
+        for t in fcfg.nodes:
+            if t.kind == "test" and norm(t.ast) in ("len(self.buf) < size", "size > len(self.buf)") and fcfg.edge_dominates(t.id, "F", un.id):
+                tc = [(norm(tt), p) for (tt, p) in fcfg.conditions_of(t.id)]
+                if branch and all(b_ in tc for b_ in branch):
+                    good = True
+        if not good:
+            why.append("%s peeked under %s without a buffered-length test inside that branch" % (u.fmt, [b_[0] for b_ in branch]))
+        okp = okp and good
+    ctx.check(okp, "C18.R5", fs, "the extended length is peeked only when its bytes are buffered (test inside the 126 / 127 branch, after the size was advanced)",
+              "a TCP read that ends inside the extended length field must not reach struct.unpack with a short slice", witness=why)
     first = [n for n in walk_own(fs.node) if isinstance(n, ast.Subscript) and norm(n.value) == "self.buf" and not isinstance(n.slice, ast.Slice)]
     idx_ok = all(norm(n.slice) == "1" for n in first)
     ctx.check(idx_ok and len(first) >= 2, "C18.R5", fs, "mask bit and 7-bit length are peeked from the second byte", witness=[norm(n) for n in first])
